@@ -391,10 +391,13 @@ Definition subn_output (valid : text -> bool) (restore : text -> text -> text)
 (* ------------------------------------------------------------------------------------------ *)
 (* correspondence cases *)
 
-Fixpoint valid_table (tbl : list (text * bool)) (t : text) : bool :=
+(* [dflt] answers for a text the implementation never asked about: the model is evaluated with both
+   defaults and must give the implementation's text either way, so a validity question the
+   implementation no longer asks (or asks about another text) cannot go unnoticed *)
+Fixpoint valid_table (dflt : bool) (tbl : list (text * bool)) (t : text) : bool :=
   match tbl with
-  | [] => false
-  | (k, v) :: tl => if text_eqb k t then v else valid_table tl t
+  | [] => dflt
+  | (k, v) :: tl => if text_eqb k t then v else valid_table dflt tl t
   end.
 
 Record subn_case := mkSubn {
@@ -432,16 +435,18 @@ Definition model_sched (c : subn_case) : list flat_entry :=
   | None => []
   end.
 
-Definition model_cand (c : subn_case) : text :=
+Definition model_cand_d (dflt : bool) (c : subn_case) : text :=
   match model_items c with
-  | Some its => subn_candidate (valid_table (sc_valid c)) (sc_src c) its
+  | Some its => subn_candidate (valid_table dflt (sc_valid c)) (sc_src c) its
   | None => sc_src c
   end.
+Definition model_cand (c : subn_case) : text := model_cand_d false c.
 
 Definition model_n (c : subn_case) : Z :=
   match model_items c with Some its => Z.of_nat (length its) | None => -1 end.
 
-(* result code: 0 = agreement; otherwise the first component that differs *)
+(* result code: 0 = agreement; otherwise the first component that differs (6 = the text depends on a
+   validity answer the implementation never produced) *)
 Definition subn_case_code (c : subn_case) : nat :=
   if negb (ranges_eqb (ignore_lines (sc_src c)) (sc_ilines c)) then 1%nat
   else match model_items c, sc_items c with
@@ -450,6 +455,7 @@ Definition subn_case_code (c : subn_case) : nat :=
            if negb (items_eqb a b) then 2%nat
            else if negb (flats_eqb (model_sched c) (sc_sched c)) then 3%nat
            else if negb (text_eqb (model_cand c) (sc_cand c)) then 4%nat
+           else if negb (text_eqb (model_cand_d true c) (sc_cand c)) then 6%nat
            else if negb (model_n c =? sc_n c) then 5%nat
            else 0%nat
        | _, _ => 2%nat
